@@ -114,7 +114,8 @@ class World:
         self.hook = None                # callable(event name) at durable-state step boundaries
         self.newpin_behaviour = "accept"   # accept|refuse|swerr|comm|timeout|ack-lost
         self.last_answer = None         # bytes of the last normal answer, None after a fault
-        self.extra_handlers = {}        # cmd -> fn(world, data, apdu) for admin-only commands
+        self.extra_handlers = {}
+        self.admin_handler = None       # fn(world, apdu) for CLA 0xE0 (endorsement set-up)        # cmd -> fn(world, data, apdu) for admin-only commands
         self.__dict__.update(kw)
 
     def apdus(self, since=0):
@@ -230,6 +231,8 @@ def get_dongle(w):
 
 
 def handle(w, a):
+    if len(a) >= 2 and a[0] == 0xE0 and w.admin_handler is not None:
+        return w.admin_handler(w, a)
     if len(a) < 2 or a[0] != 0x80:
         raise SW(0x6E11)
     cmd = a[1]
@@ -342,7 +345,9 @@ def boot(w, cmd, d, a):
             raise LinkDrop()            # device adopted the PIN, acknowledgement never arrives
         return bytes([0x80, cmd, 1]) if cmd == 0xA5 else bytes([0x80, cmd])
     if cmd == 0xFF or cmd == 0xFA:
-        if w.unlocked:
+        # 0xFF: leave the UI and (if unlocked) run the signer; 0xFA: leave the menu without
+        # executing the signer (the device stays in the unlocked UI)
+        if w.unlocked and cmd == 0xFF:
             w.mode = w.post_mode
         if cmd == 0xFF and w.exit_raises:
             raise LinkDrop()
